@@ -171,7 +171,7 @@ theorem isRange_unique (S : JSpec) (key : Int) (dir : Dir) (lo hi : BVal) (ms ms
 theorem getAll_complete (j : Journal) (hinv : JInv j) (key : Int) (d : Dir) (n : Int) (m : Bytes) :
     ∃ rs, getAllMsgs j none none = .rows rs ∧
       ((n, m, d.val, key) ∈ rs ↔ (abs j).store key d n = some m) :=
-  ⟨selAll j none none, by simp [getAllMsgs], selAll_complete hinv key d n m⟩
+  ⟨selAll j none none, by simp [getAllMsgs, normKeys], selAll_complete hinv key d n m⟩
 
 /-! ## 4. storing -/
 
